@@ -628,6 +628,14 @@ func resolveParam(v ssa.Value) ssa.Value {
 			return v
 		}
 		sites := curSites.sites[fn]
+		if len(sites) != 1 && scanSite != nil {
+			for _, s := range sites {
+				if s == scanSite {
+					sites = []ssa.Instruction{s}
+					break
+				}
+			}
+		}
 		if len(sites) != 1 && scanRoot != nil {
 			// several call sites: the one inside the unit being scanned
 			var in []ssa.Instruction
@@ -772,6 +780,18 @@ func (p *upath) value(v ssa.Value) ssa.Value {
 // scanRoot is the function whose unit is being scanned: while it is set, a parameter of a helper
 // with several call sites is resolved through the call site inside this unit (if there is exactly one).
 var scanRoot *ssa.Function
+
+// scanSite: while set, a parameter of the helper called at this site is resolved through this very call
+// (one instantiation of a helper that is called once per direction / per sibling).
+var scanSite ssa.Instruction
+
+// withSite runs fn with scanSite set.
+func withSite(site ssa.Instruction, fn func()) {
+	old := scanSite
+	scanSite = site
+	defer func() { scanSite = old }()
+	fn()
+}
 
 // withRoot runs fn with scanRoot set to root.
 func withRoot(root *ssa.Function, fn func()) {
